@@ -35,7 +35,7 @@ pub fn generate(g: &mut G, _index: u64) -> Scenario {
         let mut ops = vec![];
         // slot usage: 0..3 addresses obtained, 4 freshly spawned instance, 5 replaced entry
         let mut have: Vec<Slot> = vec![];
-        let n = g.range(1, 6);
+        let n = if g.thorough && g.chance(1, 3) { g.range(4, 9) } else { g.range(1, 6) };
         for _ in 0..n {
             let svc = if two && g.chance(1, 2) { Tag::SvcB } else { Tag::SvcA };
             match g.below(12) {
